@@ -805,3 +805,10 @@ func sortStrings(s []string) {
 		}
 	}
 }
+
+func typeUnder(t types.Type) types.Type {
+	if t == nil {
+		return nil
+	}
+	return t.Underlying()
+}
